@@ -64,7 +64,7 @@ class World:
             params += [Entry(0x08, b'p', bytes([ord('c') + i])) for i in range(sym.B['params'] - 1)]
         if extended:
             params.append(Entry(0x18, b'p', b'b', persistent=True))
-        self.plan = Plan(Device(version, params=params))
+        self.plan = Plan(Device(version, params=params, ow_mem=sym.B.get('ow_mem', False)))
         FakeDriver.plan = self.plan
         cflib.crtp.CLASSES[:] = [self.DRIVER]
         self.cf = Crazyflie()
@@ -465,6 +465,11 @@ HARNESSES = [
     Harness('threads[1,v2,3 params]', h_lifecycle, quick=dict(deviations=1, kinds=['none'] + ALL, max_pos=40, params=3, threads=True), timeout=(900, 2400),
             symbolic=False, goals=_G1,
             note='baton-scheduled real threads (a task keeps its stack across blocking calls): one deviation, three parameter values'),
+    Harness('threads[1,v2,1-wire memory]', h_lifecycle, quick=dict(deviations=1, kinds=['none'] + ALL, max_pos=40, params=1, ow_mem=True, threads=True),
+            timeout=(900, 2400), symbolic=False, goals=_G1,
+            note='baton-scheduled real threads; the device has a 1-wire deck memory, whose content is read before connected'),
+    Harness('lifecycle[1,v2,1-wire memory]', h_lifecycle, quick=dict(deviations=1, kinds=['none'] + ALL, max_pos=30, ow_mem=True),
+            timeout=(600, 1800), symbolic=False, goals=_G1, note='the device has a 1-wire deck memory, whose content is read before connected'),
     Harness('threads[1,v2,extended]', h_lifecycle, quick=dict(deviations=1, kinds=ALL, max_pos=44, params=2, extended=True, threads=True),
             timeout=(900, 2400), symbolic=False, goals=('faulted', 'closed-mid-sequence', 'reconnected'),
             note='baton-scheduled real threads; parameter table with an extended (persistent) entry: extended-type fetcher thread'),
